@@ -665,9 +665,11 @@ private:
 	// cst is either linear_constraint or reference_constraint
         auto cst = *(csts.begin());
         env.set(x, typename BoolToCstEnv::mapped_type(cst.negate()));
-      } else if (csts.size() > 1) { 
-	// we do not negate multiple conjunctions because it would
-	// become a disjunction so we give up
+      } else {
+	// No recorded constraint for y: x must not keep the
+	// constraints of its previous definition. More than one: we
+	// do not negate multiple conjunctions because it would become
+	// a disjunction so we give up
         env -= x;
       }
     }
